@@ -3,6 +3,7 @@ import Pi2.Sound.Inst
 import Pi2.RustTie
 import Pi2.PyTie
 import Pi2.InstUThm
+import Pi2.RustInstTie
 /-!
 # C11 — substitution and instantiation obey their algebra
 
@@ -412,5 +413,20 @@ theorem rust_instantiate_is_the_model (vars : List VId) (plugs : List Pat) (hlen
     (p : Pat) (hs : p.Shape = true) :
     (Pat.instU vars plugs p).map (·.getD p) = Pat.inst (Pat.lookupPlug vars plugs) p :=
   Pat.instU_eq_inst vars plugs hlen p hs
+
+/-- `instantiate_internal` / `instantiate_in_place` as written in `rust/src/lib.rs` (translated statement by statement on
+every run, `Pi2/Gen/RustInst.lean`; outer `none` = panic, inner `none` = Rust `None`) are the hand-written `Pat.instU`, on
+ALL inputs (no length or shape hypothesis) -/
+theorem rust_instantiate_text_is_instU :
+    Gen.Rust.instTranslated = true ∧
+    (∀ vars plugs p, Gen.Rust.instantiate_internal vars plugs p = Pat.instU vars plugs p) ∧
+    (∀ vars plugs p, Gen.Rust.instantiate_in_place vars plugs p = (Pat.instU vars plugs p).map (·.getD p)) :=
+  ⟨RustInstTie.instTranslated, RustInstTie.instantiate_internal_eq, RustInstTie.instantiate_in_place_eq⟩
+
+/-- hence the Rust text of `instantiate_in_place` computes the simple model `inst` on every pattern the machine can build -/
+theorem rust_instantiate_text_is_the_model (vars : List VId) (plugs : List Pat) (hlen : vars.length = plugs.length)
+    (p : Pat) (hs : p.Shape = true) :
+    Gen.Rust.instantiate_in_place vars plugs p = Pat.inst (Pat.lookupPlug vars plugs) p :=
+  (RustInstTie.instantiate_in_place_eq vars plugs p).trans (rust_instantiate_is_the_model vars plugs hlen p hs)
 
 end C11
